@@ -946,7 +946,8 @@ int main(int argc, char** argv) {
     }
     gCurHeader = sc.Header();
     // every execution that ends in std::terminate leaks its parked fibers (their stacks are mmap'ed and the number of
-    // mappings of a process is limited): such scenarios are explored in a forked child, bounded, and merged back
+    // mappings of a process is limited).  The scenarios of the former defect D2 (tuple form, FirstFail, two failures; fixed by
+    // /repo 2b9a400) are still explored in a forked child and merged back, so that a regression cannot take the explorer down
     int fails = 0;
     for (char c : sc.pattern) fails += c != 'V';
     bool crash_prone = sc.kind == "alltuple" && sc.policy == "firstfail" && fails >= 2;
@@ -954,11 +955,7 @@ int main(int argc, char** argv) {
     if (!crash_prone || opt.has_replay) {
       run();
     } else if (opt.only.empty() || opt.only == gCurHeader) {
-      ex.opt.max_exec = std::min<std::uint64_t>(opt.max_exec, 12000);
-      ex.opt.random_runs = std::min<std::uint64_t>(opt.random_runs, 1000);
       RunForked(ex, run);
-      ex.opt.max_exec = opt.max_exec;
-      ex.opt.random_runs = opt.random_runs;
     }
     // the explorer keeps the first 20 violations only: keep one per (message, api) so that a known finding that fails
     // in every schedule cannot crowd out anything else
